@@ -220,6 +220,7 @@ func plainSM2(c *mon.Case, s *subject) {
 		g, err := smx509.ParsePKIXPublicKey(pk)
 		decodedPub(c, "MarshalPKIXPublicKey -> ParsePKIXPublicKey", s, g, err)
 		ownReadPKIX(c, "smx509.MarshalPKIXPublicKey", pk, s, oidSM2)
+		unusedBitsRefused(c, "smx509.ParsePKIXPublicKey(SM2 SubjectPublicKeyInfo)", pk, s.pub, func(b []byte) (any, error) { return smx509.ParsePKIXPublicKey(b) })
 	}
 	// raw forms
 	gp, err := sm2.NewPublicKey(s.pub)
@@ -355,6 +356,7 @@ func plainECDH(c *mon.Case, s *subject) {
 		g, err := smx509.ParsePKIXPublicKey(pk)
 		decodedPub(c, "MarshalPKIXPublicKey(ecdh) -> ParsePKIXPublicKey", s, g, err)
 		ownReadPKIX(c, "smx509.MarshalPKIXPublicKey(ecdh)", pk, s, oidSM2)
+		unusedBitsRefused(c, "smx509.ParsePKIXPublicKey(ecdh SubjectPublicKeyInfo)", pk, s.pub, func(b []byte) (any, error) { return smx509.ParsePKIXPublicKey(b) })
 	}
 }
 
@@ -467,6 +469,9 @@ func plainSM9(c *mon.Case, s *subject) {
 		decoded(c, "SEQUENCE{d, masterPublicKey} -> UnmarshalSignMasterPrivateKeyASN1", s, g, err, "")
 		if p8 := marshalP8(c, s); p8 != nil {
 			p8Parsers(c, "MarshalPKCS8PrivateKey", s, p8, "*sm9.SignMasterPrivateKey")
+			for _, bits := range [][]byte{s.pub} {
+				unusedBitsRefused(c, "smx509.ParsePKCS8PrivateKey(SM9 PKCS#8)", p8, bits, func(b []byte) (any, error) { return smx509.ParsePKCS8PrivateKey(b) })
+			}
 			g, err := pkcs8.ParseSM9SignMasterPrivateKey(p8)
 			decoded(c, "MarshalPKCS8PrivateKey -> pkcs8.ParseSM9SignMasterPrivateKey", s, g, err, "")
 		}
@@ -483,6 +488,12 @@ func plainSM9(c *mon.Case, s *subject) {
 				continue
 			}
 			g, err := sm9.UnmarshalSignMasterPublicKeyASN1(v.der)
+			for _, bits := range [][]byte{s.pub, compressPoint(s.pub)} {
+				unusedBitsRefused(c, "sm9.UnmarshalSignMasterPublicKeyASN1("+v.name+")", v.der, bits, func(b []byte) (any, error) {
+					k, err := sm9.UnmarshalSignMasterPublicKeyASN1(b)
+					return nilIfErr(k, err), err
+				})
+			}
 			decodedPub(c, "SignMasterPublicKey "+v.name+" -> UnmarshalSignMasterPublicKeyASN1", s, g, err)
 			g, err = sm9.ParseSignMasterPublicKeyPEM(pemOf(v.der))
 			decodedPub(c, "SignMasterPublicKey "+v.name+" -> PEM -> ParseSignMasterPublicKeyPEM", s, g, err)
@@ -505,6 +516,9 @@ func plainSM9(c *mon.Case, s *subject) {
 		decoded(c, "SEQUENCE{d, masterPublicKey} -> UnmarshalEncryptMasterPrivateKeyASN1", s, g, err, "")
 		if p8 := marshalP8(c, s); p8 != nil {
 			p8Parsers(c, "MarshalPKCS8PrivateKey", s, p8, "*sm9.EncryptMasterPrivateKey")
+			for _, bits := range [][]byte{s.pub} {
+				unusedBitsRefused(c, "smx509.ParsePKCS8PrivateKey(SM9 PKCS#8)", p8, bits, func(b []byte) (any, error) { return smx509.ParsePKCS8PrivateKey(b) })
+			}
 			g, err := pkcs8.ParseSM9EncryptMasterPrivateKey(p8)
 			decoded(c, "MarshalPKCS8PrivateKey -> pkcs8.ParseSM9EncryptMasterPrivateKey", s, g, err, "")
 		}
@@ -521,6 +535,12 @@ func plainSM9(c *mon.Case, s *subject) {
 				continue
 			}
 			g, err := sm9.UnmarshalEncryptMasterPublicKeyASN1(v.der)
+			for _, bits := range [][]byte{s.pub, compressPoint(s.pub)} {
+				unusedBitsRefused(c, "sm9.UnmarshalEncryptMasterPublicKeyASN1("+v.name+")", v.der, bits, func(b []byte) (any, error) {
+					k, err := sm9.UnmarshalEncryptMasterPublicKeyASN1(b)
+					return nilIfErr(k, err), err
+				})
+			}
 			decodedPub(c, "EncryptMasterPublicKey "+v.name+" -> UnmarshalEncryptMasterPublicKeyASN1", s, g, err)
 			g, err = sm9.ParseEncryptMasterPublicKeyPEM(pemOf(v.der))
 			decodedPub(c, "EncryptMasterPublicKey "+v.name+" -> PEM -> ParseEncryptMasterPublicKeyPEM", s, g, err)
@@ -548,6 +568,12 @@ func plainSM9(c *mon.Case, s *subject) {
 				continue
 			}
 			g, err := sm9.UnmarshalSignPrivateKeyASN1(v.der)
+			for _, bits := range [][]byte{kb, compressPoint(kb), s.pub, compressPoint(s.pub)} {
+				unusedBitsRefused(c, "sm9.UnmarshalSignPrivateKeyASN1("+v.name+")", v.der, bits, func(b []byte) (any, error) {
+					k, err := sm9.UnmarshalSignPrivateKeyASN1(b)
+					return nilIfErr(k, err), err
+				})
+			}
 			if decoded(c, "SignPrivateKey "+v.name+" -> UnmarshalSignPrivateKeyASN1", s, g, err, "") && v.name[0] == 'S' && v.name[1] == 'E' {
 				if mp := masterPubOf(g); !bytes.Equal(mp, s.pub) {
 					c.Fail("mismatch", "SignPrivateKey %s: decoded master public key %x, expected %x", v.name, mp, s.pub)
@@ -560,6 +586,9 @@ func plainSM9(c *mon.Case, s *subject) {
 		decoded(c, "compressed point -> UnmarshalSignPrivateKeyRaw", s, g, err, "")
 		if p8 := marshalP8(c, s); p8 != nil {
 			p8Parsers(c, "MarshalPKCS8PrivateKey", s, p8, "*sm9.SignPrivateKey")
+			for _, bits := range [][]byte{kb, s.pub} {
+				unusedBitsRefused(c, "smx509.ParsePKCS8PrivateKey(SM9 PKCS#8)", p8, bits, func(b []byte) (any, error) { return smx509.ParsePKCS8PrivateKey(b) })
+			}
 			g, err := pkcs8.ParseSM9SignPrivateKey(p8)
 			if decoded(c, "MarshalPKCS8PrivateKey -> pkcs8.ParseSM9SignPrivateKey", s, g, err, "") {
 				if mp := masterPubOf(g); !bytes.Equal(mp, s.pub) {
@@ -586,6 +615,12 @@ func plainSM9(c *mon.Case, s *subject) {
 				continue
 			}
 			g, err := sm9.UnmarshalEncryptPrivateKeyASN1(v.der)
+			for _, bits := range [][]byte{kb, compressPoint(kb), s.pub, compressPoint(s.pub)} {
+				unusedBitsRefused(c, "sm9.UnmarshalEncryptPrivateKeyASN1("+v.name+")", v.der, bits, func(b []byte) (any, error) {
+					k, err := sm9.UnmarshalEncryptPrivateKeyASN1(b)
+					return nilIfErr(k, err), err
+				})
+			}
 			if decoded(c, "EncryptPrivateKey "+v.name+" -> UnmarshalEncryptPrivateKeyASN1", s, g, err, "") && v.name[0] == 'S' && v.name[1] == 'E' {
 				if mp := masterPubOf(g); !bytes.Equal(mp, s.pub) {
 					c.Fail("mismatch", "EncryptPrivateKey %s: decoded master public key %x, expected %x", v.name, mp, s.pub)
@@ -598,6 +633,9 @@ func plainSM9(c *mon.Case, s *subject) {
 		decoded(c, "compressed point -> UnmarshalEncryptPrivateKeyRaw", s, g, err, "")
 		if p8 := marshalP8(c, s); p8 != nil {
 			p8Parsers(c, "MarshalPKCS8PrivateKey", s, p8, "*sm9.EncryptPrivateKey")
+			for _, bits := range [][]byte{kb, s.pub} {
+				unusedBitsRefused(c, "smx509.ParsePKCS8PrivateKey(SM9 PKCS#8)", p8, bits, func(b []byte) (any, error) { return smx509.ParsePKCS8PrivateKey(b) })
+			}
 			g, err := pkcs8.ParseSM9EncryptPrivateKey(p8)
 			if decoded(c, "MarshalPKCS8PrivateKey -> pkcs8.ParseSM9EncryptPrivateKey", s, g, err, "") {
 				if mp := masterPubOf(g); !bytes.Equal(mp, s.pub) {
@@ -605,5 +643,35 @@ func plainSM9(c *mon.Case, s *subject) {
 				}
 			}
 		}
+	}
+}
+
+// unusedBitsRefused alters the unused-bits octet of the BIT STRING that holds bits (00 -> k
+// for every k in 1..7 that leaves the encoding well formed, i.e. the low k bits of the last
+// content octet are zero). With k unused bits the field is a different, shorter bit string,
+// not the key that was encoded: the decoder must refuse it.
+func unusedBitsRefused(c *mon.Case, what string, der, bits []byte, parse func([]byte) (any, error)) {
+	i := bytes.Index(der, bits)
+	if i < 2 || der[i-1] != 0 || bytes.Index(der[i+1:], bits) >= 0 {
+		c.Event("unused_bits_candidate_not_in_this_encoding", 1)
+		return
+	}
+	for k := 1; k <= 7 && bits[len(bits)-1]&(1<<k-1) == 0; k++ {
+		m := append([]byte{}, der...)
+		m[i-1] = byte(k)
+		var got any
+		var err error
+		if p := mon.Try(func() { got, err = parse(m) }); p != nil {
+			c.Event("altered_panicked(observation)", 1)
+			continue
+		}
+		c.Event("unused_bits_variants", 1)
+		if err != nil {
+			c.Event("negatives_refused", 1)
+			continue
+		}
+		c.Event("negatives_accepted", 1)
+		c.Detail("altered", m)
+		c.Fail("accept", "%s: BIT STRING with %d unused bits (offset %d changed 00 -> %02x, a different bit string) is accepted: returned (%s, nil)", what, k, i-1, k, typeName(got))
 	}
 }
